@@ -37,11 +37,13 @@ TabDofs(tbl) == UNION {VSet(tbl[g]) : g \in DOMAIN tbl}
 \*   np.reshape(np.arange(cnt*nents), (cnt, nents), order='F') + offset :  entry (r, g) = offset + g*cnt + r
 Block(cnt, nents, off) == [g \in 1..nents |-> [r \in 1..cnt |-> off + (g - 1) * cnt + (r - 1)]]
 
-NumberDofsImpl(kind, nv, ne, nf, t, t2e, t2f, sig) ==
+\* dr = the dimension the code reads: element.refdom.dim() = Dim(kind) since fix bb3ad7e; before it was element.dim,
+\* which an ElementVector(elem, d) answers with its number of components d (regression model MC_C04_olddim.cfg)
+NumberDofsImplRead(kind, dr, nv, ne, nf, t, t2e, t2f, sig) ==
   LET nt    == Len(t)
       nodal == Block(sig.n, nv, 0)                                                   \* :269-273
       off1  == sig.n * nv
-      useE  == Dim(kind) = 3 /\ sig.e > 0                                            \* :276
+      useE  == dr = 3 /\ sig.e > 0                                                   \* :276
       edge  == IF useE THEN Block(sig.e, ne, off1) ELSE <<>>                         \* :277-284
       off2  == off1 + (IF useE THEN sig.e * ne ELSE 0)
       facet == IF sig.f > 0 THEN Block(sig.f, nf, off2) ELSE <<>>                    \* :287-295
@@ -50,18 +52,21 @@ NumberDofsImpl(kind, nv, ne, nf, t, t2e, t2f, sig) ==
       cell  == [k \in 1..nt |->
                   FlattenSeq([j \in 1..Len(t[k]) |-> nodal[t[k][j]]])                \* :307-311
                   \o (IF useE THEN FlattenSeq([s \in 1..Len(t2e[k]) |-> edge[t2e[k][s]]]) ELSE <<>>)      \* :314-319
-                  \o (IF Dim(kind) >= 2 /\ sig.f > 0
+                  \o (IF dr >= 2 /\ sig.f > 0
                       THEN FlattenSeq([s \in 1..Len(t2f[k]) |-> facet[t2f[k][s]]]) ELSE <<>>)             \* :322-327
                   \o inter[k]]                                                       \* :330-331
   IN [ kind |-> kind, nv |-> nv, ne |-> ne, nf |-> nf, t |-> t, t2e |-> t2e, t2f |-> t2f, sig |-> sig, err |-> "",
        nodal |-> nodal, edge |-> edge, facet |-> facet, interior |-> inter, cell |-> cell,
-       N |-> MaxSet(UNION {VSet(cell[k]) : k \in 1..nt}) + 1,                         \* :334
+       N |-> LET used == UNION {VSet(cell[k]) : k \in 1..nt} IN
+             IF used = {} THEN 0 ELSE MaxSet(used) + 1,                               \* :334 (np.max of nothing raises)
        shp |-> [ nodal |-> <<sig.n, nv>>,
                  edge |-> IF useE THEN <<sig.e, ne>> ELSE <<0, 0>>,
                  facet |-> IF sig.f > 0 THEN <<sig.f, nf>> ELSE <<0, 0>>,
                  interior |-> <<sig.i, nt>>,
                  cell |-> <<Len(cell[1]), nt>> ],
        loc |-> [mode |-> "none"] ]
+
+NumberDofsImpl(kind, nv, ne, nf, t, t2e, t2f, sig) == NumberDofsImplRead(kind, Dim(kind), nv, ne, nf, t, t2e, t2f, sig)
 
 \* ===========================================================================
 \* C04 clauses on a Number event e (tables as reported by Dofs / Basis)
